@@ -205,7 +205,11 @@ def run(ctx: core.Ctx) -> int:
     threaded = {ast.unparse(i.target) for i in in_sens if i.kind == "assign"}
     rest_var = next((c for c in rest_cands if c in threaded), rest_cands[0] if rest_cands else None)    # the copy that the sensor loop consumes
     slices = [T(i.value) for i in in_row if i.kind == "assign" and isinstance(i.value, ast.Subscript) and T(i.value).startswith(f"{XN}[")]
-    if ctl_var is None or rest_var is None:
+    inline_ctl = False
+    if ctl_var is None and rest_var is not None:
+        # the control columns used where they are needed, without a local of their own
+        inline_ctl = any(isinstance(sub, ast.Subscript) and T(sub) == f"{XN}[{ridx},:{C}]" for i in in_row if i.value is not None for sub in ast.walk(i.value))
+    if (ctl_var is None and not inline_ctl) or rest_var is None:
         if slices:
             ctx.oblige("CONSUME", where, f"row slices {slices}", False, file=F, func=q, construct="control split",
                        msg=f"the row is split as {slices}; required {XN}[{ridx}, :{C}] (controls) and {XN}[{ridx}, {C}:] (sensor columns)")
@@ -232,12 +236,14 @@ def run(ctx: core.Ctx) -> int:
         okp = dt_ok and len(call.args) == 4 and args[1:3] == [SN, PN] and tg == f"{SN},{PN}"
         why = f"process_model({', '.join(args)}) -> {tg}; required (fixed positive dt, state, covariance, controls) -> state, covariance"
         # the control argument: Control.from_data(<control slice>.reshape((C, 1)))
-        if len(call.args) == 4 and ctl_var is not None:
+        if len(call.args) == 4 and (ctl_var is not None or inline_ctl):
             carg = call.args[3]
             cands = [T(carg)]
             if isinstance(carg, ast.Name):
                 cands += [T(x.value) for x in in_row if x.kind == "assign" and ast.unparse(x.target) == carg.id]
-            want = {TT(f"self.model_.Control.from_data({ctl_var}.reshape(({C},1)))"), f"self.model_.Control.from_data({XN}[{ridx},:{C}].reshape(({C},1)))"}
+            want = {f"self.model_.Control.from_data({XN}[{ridx},:{C}].reshape(({C},1)))"}
+            if ctl_var is not None:
+                want.add(TT(f"self.model_.Control.from_data({ctl_var}.reshape(({C},1)))"))
             ctl_ok = any(c in want for c in cands)
         ctx.oblige("SEQUENCE", where, "controls -> Control.from_data(column of control_size)", ctl_ok, file=F, func=q, construct="control reading",
                    msg="the control passed to process_model is not Control.from_data of the row's control columns")
